@@ -96,6 +96,8 @@ func move(id uint64, st int) Step { return Step{K: "move", ID: id, St: st} }
 func moveLast(st int) Step        { return Step{K: "movelast", St: st} }
 func fail() Step                  { return Step{K: "fail"} }
 func settleLast() []Step          { return []Step{moveLast(1), moveLast(2), moveLast(4)} }
+func crashEpoch(max uint) Step    { return Step{K: "epoch", Max: max, Crash: true} }
+func restartStep(lost bool) Step  { return Step{K: "restart", Lost: lost} }
 
 const (
 	stPending = iota
@@ -167,6 +169,48 @@ func scenarios(r *hlib.Rng) []In {
 		add("start-mid", retry, 4, pre,
 			one(epoch(0)), settleLast(), one(h.block(0, 1, 0)), one(epoch(0)), settleLast(), one(status(0)))
 	}
+	// process restarts: on the same database, on a lost one, and between "accepted by the Agglayer" and "row stored";
+	// Agglayer headers with and without prev_local_exit_root
+	for _, retry := range []bool{true, false} {
+		for _, aggPrev := range []bool{true, false} {
+			radd := func(tag string, steps ...[]Step) {
+				in := In{Retry: retry, AggPrev: aggPrev, Tag: tag}
+				for _, ss := range steps {
+					in.Steps = append(in.Steps, ss...)
+				}
+				out = append(out, in)
+			}
+			// crash while sending the certificate of a NEW height whose last block holds a bridge; it settles; the next one
+			// must start right after it
+			h := &hist{r: r}
+			radd("crash-next", one(h.block(0, 1, 0)), one(h.block(0, 0, 0)), one(epoch(0)), settleLast(),
+				one(h.block(0, 0, 1)), one(h.block(0, 1, 1)), one(crashEpoch(0)), one(status(0)), settleLast(), one(h.block(0, 1, 0)),
+				one(epoch(0)), settleLast(), one(epoch(0)))
+			// crash while sending, then the recovered certificate goes InError and is replaced (previous LER of the replacement)
+			h = &hist{r: r}
+			radd("crash-inerror", one(h.block(0, 1, 0)), one(epoch(0)), settleLast(), one(h.block(0, 1, 1)), one(crashEpoch(0)),
+				one(moveLast(stInError)), one(h.block(0, 1, 0)), one(status(0)), one(epoch(0)), settleLast(), one(h.block(0, 1, 0)),
+				one(epoch(0)), settleLast(), one(status(0)))
+			// crash while sending the very first certificate; crash while sending a REPLACEMENT (the start-up check then refuses:
+			// local = old id in error, Agglayer = new id at the same height; the node never leaves CheckInitialStatus)
+			h = &hist{r: r}
+			radd("crash-first-and-replacement", one(h.block(0, 2, 0)), one(crashEpoch(0)), one(moveLast(stInError)), one(epoch(0)),
+				one(moveLast(stInError)), one(h.block(0, 1, 0)), one(crashEpoch(0)), one(epoch(0)), one(status(0)), settleLast(),
+				one(epoch(0)), one(restartStep(false)), one(epoch(0)))
+			// database lost at every stage of the latest certificate
+			for _, stage := range [][]Step{nil, {moveLast(stProven)}, {moveLast(stInError)}, settleLast()} {
+				h = &hist{r: r}
+				radd("lostdb", one(h.block(0, 1, 0)), one(epoch(0)), settleLast(), one(h.block(1, 1, 1)), one(epoch(0)), stage,
+					one(restartStep(true)), one(h.block(0, 1, 0)), one(status(0)), one(epoch(0)), settleLast(), one(epoch(0)), settleLast(),
+					one(h.block(0, 0, 1)), one(epoch(0)))
+			}
+			// plain restarts change nothing
+			h = &hist{r: r}
+			radd("restart-keep", one(restartStep(false)), one(h.block(0, 1, 0)), one(restartStep(false)), one(epoch(0)), one(restartStep(false)),
+				one(moveLast(stInError)), one(restartStep(false)), one(status(0)), one(epoch(0)), settleLast(), one(restartStep(false)),
+				one(epoch(0)), one(restartStep(true)), one(epoch(0)))
+		}
+	}
 	// certificates that exist before the sender starts (restart on an existing database / table rebuilt from the Agglayer)
 	for _, retry := range []bool{true, false} {
 		seeded := func(tag string, seeds []Seed, steps ...[]Step) {
@@ -201,7 +245,7 @@ func scenarios(r *hlib.Rng) []In {
 
 // random walk biased towards InError -> replacement -> settle
 func walk(r *hlib.Rng, n int) In {
-	in := In{Retry: r.Bool(), Tag: "walk"}
+	in := In{Retry: r.Bool(), AggPrev: r.Bool(), Tag: "walk"}
 	h := &hist{r: r}
 	if r.Intn(3) == 0 {
 		np := 1 + r.Intn(3)
@@ -257,12 +301,16 @@ func walk(r *hlib.Rng, n int) In {
 			}
 			in.Steps = append(in.Steps, h.block(uint64(r.Intn(3)/2), nb, nc))
 		case x < 42:
-			in.Steps = append(in.Steps, epoch(hlib.Pick(r, maxes...)))
+			st := epoch(hlib.Pick(r, maxes...))
+			st.Crash = r.Intn(12) == 0
+			in.Steps = append(in.Steps, st)
 			if guess < 0 || guess == stInError {
 				guess = stPending
 			}
 		case x < 53:
-			in.Steps = append(in.Steps, status(hlib.Pick(r, maxes...)))
+			st := status(hlib.Pick(r, maxes...))
+			st.Crash = r.Intn(12) == 0
+			in.Steps = append(in.Steps, st)
 			if guess == stInError && in.Retry {
 				guess = stPending
 			}
@@ -292,8 +340,10 @@ func walk(r *hlib.Rng, n int) In {
 					guess = next
 				}
 			}
-		case x < 95:
+		case x < 94:
 			in.Steps = append(in.Steps, move(uint64(r.Intn(4)), r.Intn(5)))
+		case x < 97:
+			in.Steps = append(in.Steps, restartStep(r.Intn(3) == 0))
 		default:
 			in.Steps = append(in.Steps, fail())
 		}
